@@ -1,22 +1,34 @@
 """C07 - DFXP output is well-formed XML and internally consistent.
 
+Two strict parsers judge every document: expat (xml.etree, namespaces on) decides well-formedness; lxml must agree
+except for its xml:id rule (an xml:id that is not an NCName, or is defined twice, is an lxml complaint the XML 1.0
+grammar does not make - counted; duplicates are judged by the Coq oracle ok_refs on the expat tree).
 Streams
   S  single values through the public API: a style value on a <p> (bs4 attribute path) and on a <span> (hand-written
-     path) -> serialized literal == Coq model (attr_out / quoteattr); Coq attr_parse(literal) == value; lxml agrees.
-     Malformed literals: Coq attr_parse and lxml accept/reject together (validates the spec parser).
-  P  <p> payloads: node lists (adversarial texts, breaks, balanced / nested / attribute-less style nodes) through
-     DFXPWriter and LegacyDFXPWriter -> payload string == Coq recreate_text; Coq content_parse accepts it and its
-     events equal lxml's.
-  R  regions: layouts on set / language / caption / node level (equal objects, empty layouts, the default) through a
-     recording RegionCreator subclass (the documented _get_region_creator_class hook) -> region ids defined and
-     referenced == Coq DfxpRegion model.
-  D  whole documents: caption sets from all six readers and API-built sets (adversarial texts, style values, NCName
-     class names, language codes, layouts) x DFXPWriter / SinglePositioningDFXPWriter / LegacyDFXPWriter x options
-     -> lxml strict parse, root tt in the TTML namespace, one div per written language, one p with begin/end per
-     caption (per run of concurrent captions for legacy/single), Coq ok_refs on ids / style= / region=.
+     path): Coq attr_parse(literal) == value (violation otherwise); lxml agrees; the literal's spelling against the
+     model (attr_out / quoteattr) is counted information only.  Malformed literals and malformed CONTENT: the Coq
+     spec parsers and lxml accept / reject together (validates the spec).
+  P  <p> payloads: node lists (adversarial texts, breaks, balanced / nested / attribute-less style nodes, `region`
+     keys) through DFXPWriter and LegacyDFXPWriter: Coq content_parse accepts the payload and its events equal
+     lxml's; the events also equal those of the model's payload (recreate_text); the bytes are counted only.
+  R  regions and references: layouts on set / language / caption / node level (equal objects, empty layouts, the
+     default, webvtt_positioning-only layouts) through a recording RegionCreator subclass; styles with class chains;
+     DFXPWriter / SinglePositioning / LegacyDFXPWriter -> ids and references == Coq DfxpDoc / DfxpRegion model UP TO
+     a renaming of the region ids; span attribute dictionaries compared unordered.
+  D  whole documents: caption sets from all six readers (several templates each) and API-built sets (adversarial
+     texts, style values, class names and style ids with markup characters, language codes, percent and absolute-unit
+     layouts) x three writers x options -> strict parse (both parsers), root tt in the TTML namespace, definitions in
+     the head, one div per written language, one p with begin/end per caption (per run for legacy/single), Coq ok_refs
+     on ids / style= (head AND body) / region=.
+  H  histories: one writer object, 2-4 write() calls on sets with different style-id vocabularies.
+Every R / D / H violation record carries the pickled caption set(s): `./check C07 --replay` re-runs it.
 """
 import re
 import json
+import base64
+import pickle
+import xml.etree.ElementTree as ET
+from copy import deepcopy
 
 import impl
 import gens
@@ -36,6 +48,7 @@ WRITERS = {"main": DFXPWriter, "single": SinglePositioningDFXPWriter, "legacy": 
 VALUE_ATOMS = ["&", "<", ">", '"', "'", "&amp;", "&lt;", "&#60;", "&quot;", ";", "#", "a", "b c", "é", "中", "\U0001F600",
                " ", "=", "/", "]]>", "<!--", "-->", "<br/>", "</span>", "x", "1c", "Arial", "#ff0000", "\t", "\n"]
 NCNAMES = ["k1", "a.b", "é1", "_x-1", "default", "p", "Style2", "z"]
+WILD_NAMES = ["a&b", "x\"y'z", "1x", "a b", "a<b", "q'", "é&>", "]]>"]     # not NCNames: judged by expat only
 REGION_LIKE = ["bottom", "r0", "r1"]         # style ids that collide with region ids (known finding)
 LANGS = ["en-US", "fr", "de", 'e"n&', "a<b>", "x'y\"z", "pt-BR", "und"]
 
@@ -54,6 +67,28 @@ def rand_vis_text(rng):
         t = gens.rand_text(rng, adversarial=0.6)
         if gens.visible(t) and xml_char_ok(t) and "\n" not in t and "\r" not in t:
             return t
+
+
+def strict_parse(text, acc):
+    """-> (expat tree root, None) or (None, violation dict)"""
+    try:
+        root = ET.fromstring(text.encode("utf-8"))
+    except ET.ParseError as e:
+        return None, {"kind": "ill-formed-xml", "what": "expat (strict, namespaces on) rejects the output: %s" % e}
+    try:
+        etree.fromstring(text.encode("utf-8"))
+    except etree.XMLSyntaxError as e:
+        if "is not an NCName" in str(e):
+            acc.count("X_lxml_refuses_an_xml:id_that_is_not_an_NCName(expat accepts)")
+        elif "already defined" in str(e):
+            acc.count("X_lxml_refuses_a_duplicate_xml:id(judged by ok_refs on the expat tree)")
+        else:
+            return None, {"kind": "ill-formed-xml", "what": "lxml (strict) rejects the output although expat accepts it: %s" % e}
+    return root, None
+
+
+def pickled(*objs):
+    return base64.b64encode(pickle.dumps(objs)).decode("ascii")
 
 
 def norm_attr(v):
@@ -119,8 +154,8 @@ def stream_values(ctx, acc):
             acc.res["disagreements"].append({"stream": "S", "input": v, "impl": [lx_p[i], lx_s[i]], "model": [norm_attr(v), v],
                                              "what": "lxml decodes the attribute differently from the Coq spec parser"})
         if p_lits[i] != mp[i] or s_lits[i] != ms[i]:
-            acc.res["disagreements"].append({"stream": "S", "input": v, "impl": [p_lits[i], s_lits[i]], "model": [mp[i], ms[i]],
-                                             "what": "attribute serialization differs from the model"})
+            # another well-formed spelling of the same value (quote choice, &quot; ...): not the property's business
+            acc.count("S_literal_spelled_differently_from_the_model(value equal)")
     # malformed literals: the spec parser and lxml accept / reject together
     lits = []
     for _ in range(ctx.n(400, 8000)):
@@ -143,6 +178,29 @@ def stream_values(ctx, acc):
         elif cv is None:
             acc.count("S_malformed_rejected_by_both")
     acc.count("S_values", len(vals))
+    # malformed CONTENT: the spec content machine and lxml accept / reject together (']]>', stray markup, bad references,
+    # unbalanced / overlapping tags, duplicate attributes)
+    conts = ["a]]>b", "]]>", "a]]&gt;b", "<span x=\"]]>\">t</span>", "a > b", "]] >", "]]]>", "<br/>]]>"]
+    atoms = ["a", " ", "]]", "]", ">", "&gt;", "&amp;", "&", "<", "<br/>", "<span>", "</span>", "<span x=\"1\">", "<span x='1' x='2'>",
+             "&#65;", "&#0;", "&bogus;", "<i>", "</i>", "\"", "'", "é"]
+    for _ in range(ctx.n(400, 8000)):
+        conts.append("".join(rng.choice(atoms) for _ in range(rng.randint(1, 6))))
+    got = oracle_batch([(703, c) for c in conts])
+    for c, g in zip(conts, got):
+        acc.res["evaluations"] += 1
+        try:
+            pe = etree.fromstring(("<p>%s</p>" % c).encode("utf-8"))
+            lv = strip_events(lx_events(pe))
+        except etree.XMLSyntaxError:
+            lv = None
+        cv = strip_events(coq_events(g[0])) if g != [] else None
+        if lv != cv:
+            acc.res["disagreements"].append({"stream": "S-malformed-content", "input": c, "impl": lv, "model": cv,
+                                             "what": "spec content machine and lxml disagree (accept/reject or events)"})
+        elif cv is None:
+            acc.count("S_malformed_content_rejected_by_both")
+        else:
+            acc.count("S_content_accepted_by_both")
 
 
 # ------------------------------------------------------------------------------------------------ P
@@ -155,8 +213,17 @@ def rand_style(rng, allow_empty=True):
         return {"bold": True}                       # no DFXP attribute: no span is opened
     d = {}
     for k in rng.sample(STYLE_KEYS, rng.randint(1, 3)):
-        d[k] = True if k == "italics" else rand_value(rng, 3, ws=rng.random() < 0.3)
+        d[k] = (rng.random() < 0.8) if k == "italics" else rand_value(rng, 3, ws=rng.random() < 0.3)
+    if rng.random() < 0.12:
+        d["region"] = rng.choice(["bottom", "bottom", "r0", "zz"])     # a key only LegacyDFXPWriter._recreate_style reads
     return d
+
+
+def wire_value(v):
+    """style values as the model sees them: strings; True -> "x", False / None -> "" (falsy)"""
+    if isinstance(v, str):
+        return v
+    return "x" if v else ""
 
 
 def rand_nodes(rng, depth=0):
@@ -245,10 +312,27 @@ def strip_events(ev):
     return [e for e in ev if e != ""]
 
 
+def ws_events(ev):
+    """events with the whitespace of character data normalised: runs collapsed, every text segment stripped, empty
+    segments dropped (where blanks and line breaks stand in the payload is C03's business, not C07's)"""
+    out = []
+    for e in ev:
+        if isinstance(e, str):
+            if out and isinstance(out[-1], str):
+                out[-1] = out[-1] + e
+                continue
+        out.append(e)
+    out = [re.sub(r"\s+", " ", e).strip() if isinstance(e, str) else e for e in out]
+    return [e for e in out if e != ""]
+
+
 def stream_payload(ctx, acc):
     rng = ctx.rng
     cases = []
     fixed = [[("start", {"color": 'r&d'}), ("text", "x & <y>"), ("end", {})],
+             [("start", {"region": "bottom", "color": "red"}), ("text", "legacy region"), ("end", {}),
+              ("start", {"region": "r7"}), ("text", "no such region"), ("end", {})],
+             [("start", {"italics": False}), ("text", "not italic ]]> here"), ("end", {})],
              [("text", "a "), ("break",), ("text", " b"), ("start", {"italics": True}), ("start", {"bold": True}),
               ("text", "c"), ("end", {}), ("text", "d"), ("end", {})],
              [("start", {"bold": True}), ("text", "plain"), ("end", {})]]
@@ -262,7 +346,8 @@ def stream_payload(ctx, acc):
             for nodes in caps:
                 for n in nodes:
                     if n[0] == "start":
-                        style_reqs.append((705, [[[k, "x" if v is True else v] for k, v in n[1].items()], []]))
+                        cp = [[k, wire_value(v)] for k, v in n[1].items()]
+                        style_reqs.append((712, [cp, [], ["bottom"]]) if wname == "legacy" else (705, [cp, []]))
         attrs = iter(oracle_batch(style_reqs))
         reqs = []
         for caps in cases:
@@ -302,10 +387,11 @@ def stream_payload(ctx, acc):
                 acc.res["disagreements"].append({"stream": "P", "input": inp, "what": "payload count / open span flag", "impl": got})
                 continue
             payloads.append((inp, got, lx, [m[0].strip() for m in ms]))   # prettify strips the text node
-            wanted += [(703, g) for g in got]
+            wanted += [(703, g) for g in got] + [(703, m[0].strip()) for m in ms]
         parsed = iter(oracle_batch(wanted))
         for inp, got, lx, ms in payloads:
             evs = [next(parsed) for _ in got]
+            mevs = [next(parsed) for _ in ms]
             bad = [g for g, e in zip(got, evs) if e == []]
             if bad:
                 acc.res["violations"].append({"kind": "payload-ill-formed", "what": "the strict content parser rejects %r" % bad[0],
@@ -315,17 +401,20 @@ def stream_payload(ctx, acc):
             if ce != lx:
                 acc.res["disagreements"].append({"stream": "P", "input": inp, "impl": lx, "model": ce,
                                                  "what": "lxml and the Coq content parser see different events"})
-            elif got != ms:
+            elif any(e == [] for e in mevs) or [ws_events(strip_events(coq_events(e[0]))) for e in mevs] != [ws_events(x) for x in ce]:
                 acc.res["disagreements"].append({"stream": "P", "input": inp, "impl": got, "model": ms,
-                                                 "what": "payload differs from the model of _recreate_text"})
+                                                 "what": "the events of the payload differ from those of the model's payload "
+                                                         "(recreate_text), whitespace runs collapsed"})
             else:
+                if got != ms:
+                    acc.count("P_payload_bytes_differ_from_the_model(events equal up to whitespace)")
                 acc.res["nontrivial"].add(("P", inp["writer"], json.dumps(inp["captions"], sort_keys=True)))
                 acc.count("P_spans", sum(g.count("<span") for g in got))
     acc.count("P_cases", 2 * len(cases))
 
 
 # ------------------------------------------------------------------------------------------------ R
-def layout_pool():
+def layout_pool(absolute=False):
     pct = UnitEnum.PERCENT
     o1 = Point(Size(10, pct), Size(20, pct))
     o2 = Point(Size(30, pct), Size(40, pct))
@@ -343,7 +432,20 @@ def layout_pool():
           lambda: Layout(alignment=Alignment(HorizontalAlignmentEnum.RIGHT, None)),
           lambda: Layout(origin=o2, alignment=Alignment(None, VerticalAlignmentEnum.CENTER)),
           lambda: Layout(extent=ext, alignment=Alignment(HorizontalAlignmentEnum.LEFT, None)),
-          lambda: Layout(alignment=Alignment(None, None))]
+          lambda: Layout(alignment=Alignment(None, None)),
+          # what WebVTTReader returns: only webvtt_positioning (truthy, but creates no region; equal to Layout()),
+          # alone and next to an origin (equal to Layout(origin=o1))
+          lambda: Layout(webvtt_positioning="line:10%"), lambda: Layout(webvtt_positioning="position:20% align:start"),
+          lambda: Layout(origin=o1, webvtt_positioning="line:0"),
+          # origin + extent beyond the screen: fit_to_screen has something to clip
+          lambda: Layout(origin=Point(Size(60, pct), Size(70, pct)), extent=Stretch(Size(60, pct), Size(50, pct)))]
+    if absolute:
+        px, em, c = UnitEnum.PIXEL, UnitEnum.EM, UnitEnum.CELL
+        mk += [lambda: Layout(origin=Point(Size(64, px), Size(36, px))),
+               lambda: Layout(origin=Point(Size(100, px), Size(300, px)), extent=Stretch(Size(600, px), Size(100, px))),
+               lambda: Layout(origin=Point(Size(2, em), Size(3, em))),
+               lambda: Layout(origin=Point(Size(4, c), Size(5, c)), extent=Stretch(Size(10, c), Size(2, c))),
+               lambda: Layout(padding=Padding(Size(5, px), Size(5, px), Size(5, px), Size(5, px)))]
     return mk
 
 
@@ -364,8 +466,14 @@ def recording_writer(base, **kw):
     return W(**kw)
 
 
+def creates_region(l):
+    """the test of RegionCreator._create_unique_regions, restated"""
+    return bool(l.origin or l.extent or l.padding or l.alignment)
+
+
 def abstract_layouts(cs):
-    """-> wire value of coq rset; layouts abstracted to (class, truthy); class 0 = equal to DFXP_DEFAULT_REGION"""
+    """-> wire value of coq rset; a layout is abstracted to (equality class, creates a region, truthy);
+    class 0 = equal to DFXP_DEFAULT_REGION"""
     from pycaption.dfxp.base import DFXP_DEFAULT_REGION
     classes = [DFXP_DEFAULT_REGION]
 
@@ -374,9 +482,9 @@ def abstract_layouts(cs):
             return []
         for i, c in enumerate(classes):
             if c == l:
-                return [i, 1 if l else 0]
+                return [i, 1 if creates_region(l) else 0, 1 if l else 0]
         classes.append(l)
-        return [len(classes) - 1, 1 if l else 0]
+        return [len(classes) - 1, 1 if creates_region(l) else 0, 1 if l else 0]
     langs = []
     for lang in cs.get_languages():
         caps = []
@@ -387,26 +495,22 @@ def abstract_layouts(cs):
     return [ab(cs.layout_info), langs]
 
 
-def collides(cs):
-    """a written style whose id is also a region id ("bottom", "r<k>"): the two share the XML ID space"""
-    return any(re.fullmatch(r"bottom|r\d+", sid) and st for sid, st in cs.get_styles())
-
-
-def tag_collision(v, cs):
-    if collides(cs) and (v["kind"] == "ids-not-unique" or "already defined" in v.get("what", "")):
-        v["kind"] = "ids-not-unique"
+def tag_collision(v):
+    """the known failure, exactly: ids are not unique AND every duplicated id is both the id of a written <style> and of
+    a <region> (style ids and region ids share the xml:id space)"""
+    if v.get("kind") == "ids-not-unique" and v.get("duplicated") and v.get("duplicates_are_style_and_region_ids"):
         v["shape"] = "style-id-equals-region-id"
     return v
 
 
 def content_pairs(d):
-    return [[k, v if isinstance(v, str) else "x"] for k, v in d.items() if isinstance(k, str)]
+    return [[k, wire_value(v)] for k, v in d.items() if isinstance(k, str)]
 
 
-def abstract_document(cs):
-    """-> wire value of coq dset (model/DfxpDoc.v) for the caption set the RegionCreator saw"""
+def abstract_document(cs, langs=None):
+    """-> wire value of coq dset (model/DfxpDoc.v) for the caption set the writer traverses"""
     rset = abstract_layouts(cs)
-    langs = []
+    out = []
     for li, lang in enumerate(cs.get_languages()):
         caps = []
         for ci, c in enumerate(cs.get_captions(lang)):
@@ -414,14 +518,16 @@ def abstract_document(cs):
             ns = [[rn[0], rn[1], content_pairs(n.content) if (n.type_ == CaptionNode.STYLE and isinstance(n.content, dict)) else []]
                   for rn, n in zip(rc[1], c.nodes)]
             caps.append([rc[0], [content_pairs(c.style)] if c.style else [], ns])
-        langs.append([rset[1][li][0], caps])
+        if langs is None or lang in langs:
+            out.append([rset[1][li][0], caps])
     styles = [[sid, content_pairs(st)] for sid, st in cs.get_styles()]
-    return [rset[0], styles, langs]
+    return [rset[0], styles, out]
 
 
 def span_dicts_differ(acc, inp, root, cs, written, want_refs, inline_on):
-    """the attribute dictionary of every positioned <span> (style attributes, region, inline positioning, in order)
-    against model/DfxpDoc.span_attributes (requests 705 + 710)"""
+    """the attribute dictionary of every positioned <span> (style attributes, region, inline positioning) against
+    model/DfxpDoc.span_attributes (requests 705 + 710), as DICTIONARIES (attribute order is not XML's business) and up
+    to the renaming of region ids"""
     from pycaption.dfxp.base import _convert_layout_to_attributes
     spans = []
     for lang in cs.get_languages():
@@ -440,10 +546,13 @@ def span_dicts_differ(acc, inp, root, cs, written, want_refs, inline_on):
         return False
     sattrs = oracle_batch([(705, [c, written]) for c, _ in spans])
     want = oracle_batch([(710, [sa, Some(r), inl]) for sa, r, (_, inl) in zip(sattrs, regions, spans)])
-    if want != got:
+    strip_region = lambda l: sorted([k, v] for k, v in l if k != "region")   # noqa: E731
+    if [strip_region(x) for x in want] != [strip_region(x) for x in got] or any("region" not in dict(map(tuple, x)) for x in got):
         acc.res["disagreements"].append({"stream": "R-span", "input": inp, "impl": got, "model": want,
                                          "what": "span attribute dictionary differs from model span_attributes"})
         return True
+    if want != got:
+        acc.count("R_span_attribute_order_or_region_name_differs_from_the_model(same dictionary)")
     acc.count("R_positioned_spans", len(spans))
     acc.count("R_positioned_spans_with_inline_attributes", len(spans) if inline_on else 0)
     return False
@@ -453,17 +562,45 @@ def rid(x):
     return "bottom" if x == -1 else "r%d" % x
 
 
+def canon(summ):
+    """ids / references up to a renaming of the REGION ids (first occurrence order) and up to the order of the
+    definitions: [sorted style ids, number of regions, sorted style refs, region refs renamed]"""
+    ids, style_ids, region_ids, style_refs, region_refs = summ
+    names = {}
+    for r in region_refs + region_ids:
+        names.setdefault(r, "R%d" % len(names))
+    return [sorted(x for x in ids if x not in region_ids) + sorted(names[r] for r in region_ids),
+            sorted(style_ids), sorted(names[r] for r in region_ids), sorted(style_refs), [names[r] for r in region_refs]]
+
+
+def summary_of(root):
+    body = root.find(TT + "body")
+    return [[e.get(XMLNS + "id") for e in root.iter() if e.get(XMLNS + "id") is not None],
+            [e.get(XMLNS + "id") for e in root.iter(TT + "style") if e.get(XMLNS + "id") is not None],
+            [e.get(XMLNS + "id") for e in root.iter(TT + "region") if e.get(XMLNS + "id") is not None],
+            [e.get("style") for e in root.iter() if e.get("style") is not None],
+            [e.get("region") for e in (body.iter() if body is not None else []) if e.get("region") is not None]]
+
+
+def rand_styles(rng, names_pool, extra_region_like=0.04, allow_empty=True):
+    """a styles dict with class chains: dangling, forward, backward, self references and references to empty styles"""
+    styles = {}
+    for name in rng.sample(names_pool, rng.randint(0, 4)) + ([rng.choice(REGION_LIKE)] if rng.random() < extra_region_like else []):
+        styles[name] = rand_style(rng, allow_empty=allow_empty) if rng.random() < 0.85 else {}
+    names = list(styles)
+    for name in names:
+        if styles[name] and rng.random() < 0.4:
+            styles[name]["class"] = rng.choice(names + ["missing", name])
+    return styles
+
+
 def stream_regions(ctx, acc):
     rng = ctx.rng
     pool = layout_pool()
     for _ in range(ctx.n(250, 5000)):
         nl = rng.choice([1, 1, 2, 3])
         d = {}
-        styles = {}
-        for name in rng.sample(NCNAMES, rng.randint(0, 4)) + ([rng.choice(REGION_LIKE)] if rng.random() < 0.04 else []):
-            styles[name] = rand_style(rng, allow_empty=True) if rng.random() < 0.85 else {}
-            if styles and rng.random() < 0.3:
-                styles[name]["class"] = rng.choice(list(styles))
+        styles = rand_styles(rng, NCNAMES + (WILD_NAMES if rng.random() < 0.3 else []))
         names = list(styles) + ["missing", "default", "p"]
         for li in range(nl):
             caps = []
@@ -477,71 +614,96 @@ def stream_regions(ctx, acc):
                 caps.append(Caption(ci * 2000000, ci * 2000000 + 1000000, to_caption_nodes(nodes, lays), **kw))
             d[LANGS[li]] = CaptionList(caps, layout_info=rng.choice(pool)())
         cs = CaptionSet(d, styles=styles, layout_info=rng.choice(pool)())
-        wname = rng.choice(["main", "main", "single"])
-        kw = {"write_inline_positioning": rng.random() < 0.4}
-        if rng.random() < 0.3:
-            kw.update({"relativize": rng.random() < 0.5, "fit_to_screen": rng.random() < 0.5})
+        wname = rng.choice(["main", "main", "single", "legacy"])
+        kw = {}
+        if wname != "legacy":
+            kw = {"write_inline_positioning": rng.random() < 0.4}
+            r = rng.random()
+            if r < 0.3:
+                kw.update({"relativize": False, "fit_to_screen": False})
+            elif r < 0.5:
+                kw.update({"relativize": rng.random() < 0.5, "fit_to_screen": rng.random() < 0.5})
         Recorder.seen = None
-        w = recording_writer(WRITERS[wname], **kw)
+        blob = pickled(cs)
+        w = recording_writer(WRITERS[wname], **kw) if wname != "legacy" else LegacyDFXPWriter()
         out = impl.call(lambda: w.write(cs))
         acc.res["evaluations"] += 1
-        inp = {"writer": wname, "options": kw, "set": gens.describe_capset(cs)}
-        if not isinstance(out, Ok) or Recorder.seen is None:
-            acc.res["violations"].append({"kind": "write-raises", "what": "%s writer raised %r" % (wname, out), "input": inp, "replay": "none"})
+        inp = {"writer": wname, "options": kw, "set": gens.describe_capset(cs), "styles": repr(cs.get_styles())[:500]}
+        rp = {"replay": "document", "pickle": blob, "writer": wname, "options": kw, "force": None}
+        if not isinstance(out, Ok) or (wname != "legacy" and Recorder.seen is None):
+            acc.res["violations"].append(dict({"kind": "write-raises", "what": "%s writer raised %r" % (wname, out), "input": inp}, **rp))
             continue
-        try:
-            root = etree.fromstring(out.v.encode("utf-8"))
-        except etree.XMLSyntaxError as e:
-            acc.res["violations"].append(tag_collision({"kind": "ill-formed-xml", "what": str(e), "input": inp,
-                                                        "document": out.v[:3000], "replay": "none"}, Recorder.seen))
+        root, bad = strict_parse(out.v, acc)
+        if bad:
+            acc.res["violations"].append(dict(bad, input=inp, document=out.v[:3000], **rp))
             continue
-        m = oracle_batch([(706, abstract_layouts(Recorder.seen))])[0]
+        v = check_document(root, out.v)
+        if v:
+            acc.res["violations"].append(dict(tag_collision(v), input=inp, document=out.v[:3000], **rp))
+            continue
+        got_summ = summary_of(root)
+        if wname == "legacy":
+            from pycaption.base import merge_concurrent_captions
+            seen = merge_concurrent_captions(deepcopy(cs))
+            summ = oracle_batch([(711, abstract_document(seen))])[0]
+            if not summ[5]:
+                acc.count("R_legacy_outside_dom_legacy")
+            if canon(got_summ) != canon(summ[:5]):
+                acc.res["disagreements"].append({"stream": "R-document-legacy", "input": inp, "impl": got_summ, "model": summ[:5],
+                                                 "what": "ids / references differ from the legacy whole-document model (DfxpDoc.legacy_summarize)"})
+            else:
+                acc.res["nontrivial"].add(("R-legacy", json.dumps(got_summ)))
+                acc.count("R_legacy_documents")
+            continue
+        seen = Recorder.seen
+        m = oracle_batch([(706, abstract_layouts(seen))])[0]
         want_defined = [rid(x) for x in m[1]]
         want_refs = [[rid(dv[0]), [[rid(p[0]), [rid(s) for s in p[1]]] for p in dv[1]]] for dv in m[2]]
-        got_defined = [r.get(XMLNS + "id") for r in root.iter(TT + "region")]
-        got_refs = [[dv.get("region"), [[p.get("region"), [s.get("region") for s in p.iter(TT + "span") if s.get("region")]]
-                                        for p in dv.iter(TT + "p")]] for dv in root.iter(TT + "div")]
-        v = check_document(root, out.v)
-        summ = oracle_batch([(709, abstract_document(Recorder.seen))])[0]
-        body = root.find(TT + "body")
-        got_summ = [[e.get(XMLNS + "id") for e in root.iter() if e.get(XMLNS + "id") is not None],
-                    [e.get(XMLNS + "id") for e in root.iter(TT + "style") if e.get(XMLNS + "id") is not None],
-                    [e.get(XMLNS + "id") for e in root.iter(TT + "region") if e.get(XMLNS + "id") is not None],
-                    [e.get("style") for e in root.iter() if e.get("style") is not None],
-                    [e.get("region") for e in body.iter() if e.get("region") is not None]]
+        summ = oracle_batch([(709, abstract_document(seen))])[0]
         if not summ[5]:
             acc.count("R_style_id_equals_a_region_id(outside dom_doc)")
-        if v:
-            acc.res["violations"].append(dict(tag_collision(v, Recorder.seen), input=inp, document=out.v[:3000], replay="none"))
-        elif got_summ != summ[:5]:
+        if canon(got_summ) != canon(summ[:5]):
             acc.res["disagreements"].append({"stream": "R-document", "input": inp, "impl": got_summ, "model": summ[:5],
-                                             "what": "ids / references differ from the whole-traversal model (DfxpDoc)"})
-        elif span_dicts_differ(acc, inp, root, Recorder.seen, summ[1], want_refs, kw.get("write_inline_positioning", False)):
+                                             "what": "ids / references differ (up to renaming of region ids and order of "
+                                                     "definitions) from the whole-traversal model (DfxpDoc)"})
+        elif span_dicts_differ(acc, inp, root, seen, summ[1], want_refs, kw.get("write_inline_positioning", False)):
             pass
-        elif got_defined != want_defined or got_refs != want_refs:
-            acc.res["disagreements"].append({"stream": "R", "input": inp, "impl": [got_defined, got_refs],
-                                             "model": [want_defined, want_refs], "what": "regions differ from the RegionCreator model"})
         else:
-            acc.res["nontrivial"].add(("R", json.dumps([got_defined, got_refs])))
-            acc.count("R_regions_defined", len(got_defined))
+            if got_summ != summ[:5]:
+                acc.count("R_region_names_or_definition_order_differ_from_the_model(same structure)")
+            acc.res["nontrivial"].add(("R", json.dumps(got_summ)))
+            acc.count("R_regions_defined", len(got_summ[2]))
             acc.count("R_unreferenced_created_then_removed", len(m[0]) - len(m[1]))
+            acc.count("R_layouts_truthy_without_region(webvtt_positioning only)",
+                      sum(1 for lang in seen.get_languages() for c in seen.get_captions(lang)
+                          for l in [c.layout_info] + [n.layout_info for n in c.nodes] if l and not creates_region(l)))
 
 
 # ------------------------------------------------------------------------------------------------ D
 def check_document(root, text, expect_divs=None, expect_ps=None):
-    """the document-level clauses of the property on an lxml tree; returns a violation dict or None"""
+    """the document-level clauses of the property on a strictly parsed tree; returns a violation dict or None"""
     if root.tag != TT + "tt":
         return {"kind": "root-not-tt", "what": "root element is %s" % root.tag}
+    head, body = root.find(TT + "head"), root.find(TT + "body")
+    if head is None or body is None:
+        return {"kind": "no-head-or-body", "what": "the document has no <head> / <body> in the TTML namespace"}
     ids = [e.get(XMLNS + "id") for e in root.iter() if e.get(XMLNS + "id") is not None]
-    style_ids = [e.get(XMLNS + "id") for e in root.iter(TT + "style") if e.get(XMLNS + "id") is not None]
-    region_ids = [e.get(XMLNS + "id") for e in root.iter(TT + "region") if e.get(XMLNS + "id") is not None]
-    body = root.find(TT + "body")
-    style_refs = [e.get("style") for e in body.iter() if e.get("style") is not None]
+    # definitions: in the head only; references: the whole tree (a <style> in the head may carry style=)
+    style_ids = [e.get(XMLNS + "id") for e in head.iter(TT + "style") if e.get(XMLNS + "id") is not None]
+    region_ids = [e.get(XMLNS + "id") for e in head.iter(TT + "region") if e.get(XMLNS + "id") is not None]
+    style_refs = [e.get("style") for e in root.iter() if e.get("style") is not None]
     region_refs = [e.get("region") for e in body.iter() if e.get("region") is not None]
+    if any(True for _ in body.iter(TT + "style")) or any(True for _ in body.iter(TT + "region")):
+        return {"kind": "definition-outside-head", "what": "a <style> / <region> element stands in the body"}
     code = oracle_batch([(707, [ids, style_ids, region_ids, style_refs, region_refs])])[0]
     if code:
         kind = {1: "ids-not-unique", 2: "style-ref-unresolved", 3: "region-ref-unresolved", 4: "region-unreferenced"}[code]
-        return {"kind": kind, "what": "%s: ids %r, style refs %r, region refs %r" % (kind, ids, style_refs, region_refs)}
+        v = {"kind": kind, "what": "%s: ids %r, style refs %r, region refs %r" % (kind, ids, style_refs, region_refs)}
+        if code == 1:
+            dups = sorted({x for x in ids if ids.count(x) > 1})
+            v["duplicated"] = dups
+            v["duplicates_are_style_and_region_ids"] = all(style_ids.count(x) == 1 and region_ids.count(x) == 1 and ids.count(x) == 2 for x in dups)
+        return v
     divs = list(root.iter(TT + "div"))
     if expect_divs is not None and [d.get(XMLNS + "lang") for d in divs] != expect_divs:
         return {"kind": "div-per-language", "what": "divs %r, written languages %r" % ([d.get(XMLNS + "lang") for d in divs], expect_divs)}
@@ -554,8 +716,10 @@ def check_document(root, text, expect_divs=None, expect_ps=None):
                 return {"kind": "p-per-caption", "what": "div %d has %d <p>, expected %d (one per caption / per run of "
                                                         "captions with equal start and end)" % (i, len(ps), len(expect_ps[i]))}
             got = [(stamp_us(p.get("begin")), stamp_us(p.get("end"))) for p in ps]
+            if any(a is None or b is None for a, b in got):
+                return {"info": "p_time_expression_in_another_format(not compared)"}
             want = [(int(a) // 1000 * 1000, int(b) // 1000 * 1000) for a, b in expect_ps[i]]
-            if got != want:
+            if any(abs(g[0] - w[0]) > 1000 or abs(g[1] - w[1]) > 1000 for g, w in zip(got, want)):
                 return {"kind": "p-begin-end", "what": "div %d: <p> begin/end %r, captions / runs have %r" % (i, got, want)}
     return None
 
@@ -571,67 +735,95 @@ def runs(caps):
 
 
 def stamp_us(stamp):
-    m = re.fullmatch(r"(\d+):(\d\d):(\d\d)\.(\d{3})", stamp or "")
-    if not m:
-        return None
-    h, mi, sec, ms = map(int, m.groups())
-    return ((h * 60 + mi) * 60 + sec) * 1000000 + ms * 1000
+    """TTML clock time h+:mm:ss(.f+)? or offset time <n>(.f+)?(h|m|s|ms) in microseconds; None when in another form"""
+    m = re.fullmatch(r"(\d+):(\d\d):(\d\d)(?:\.(\d+))?", stamp or "")
+    if m:
+        h, mi, sec = int(m.group(1)), int(m.group(2)), int(m.group(3))
+        frac = int(((m.group(4) or "0") + "000000")[:6])
+        return ((h * 60 + mi) * 60 + sec) * 1000000 + frac
+    m = re.fullmatch(r"(\d+(?:\.\d+)?)(h|m|s|ms)", stamp or "")
+    if m:
+        return int(round(float(m.group(1)) * {"h": 3600e6, "m": 60e6, "s": 1e6, "ms": 1e3}[m.group(2)]))
+    return None
 
 
 def reader_sets(ctx):
     rng = ctx.rng
     out = []
     esc = lambda t: t.replace("&", "&amp;").replace("<", "&lt;").replace(">", "&gt;")  # noqa: E731
+    qesc = lambda t: esc(t).replace('"', "&quot;")  # noqa: E731
     for _ in range(ctx.n(12, 200)):
         t1, t2 = rand_vis_text(rng), rand_vis_text(rng)
         plain = lambda t: re.sub(r"-->|\|", "-", t)  # noqa: E731
         out.append(("srt", lambda a=t1, b=t2: SRTReader().read("1\n00:00:01,000 --> 00:00:02,000\n%s\n%s\n\n2\n00:00:03,000 --> "
                                                                  "00:00:04,000\n%s\n" % (plain(a), plain(b), plain(b)))))
-        out.append(("webvtt", lambda a=t1, b=t2: WebVTTReader().read("WEBVTT\n\n00:01.000 --> 00:02.000\n%s\n\n00:03.000 --> "
-                                                                      "00:04.000 line:10%% position:20%%\n%s\n" % (plain(a), plain(b)))))
+        setting = rng.choice(["line:10% position:20%", "align:start size:40%", "line:0 align:end", "vertical:rl", ""])
+        tagged = rng.choice(["<i>%s</i>", "<b>%s</b> <u>u</u>", "<c.yellow>%s</c>", "<v Bob>%s", "%s"])
+        out.append(("webvtt", lambda a=t1, b=t2, st=setting, tg=tagged: WebVTTReader().read(
+            "WEBVTT\n\n00:01.000 --> 00:02.000\n%s\n\n00:03.000 --> 00:04.000 %s\n%s\n\n00:05.000 --> 00:06.000 %s\n%s\n"
+            % (plain(esc(a)), st, tg % plain(esc(b)), st, plain(esc(a))))))
         out.append(("microdvd", lambda a=t1, b=t2: MicroDVDReader().read("{0}{0}25.0\n{25}{50}%s|%s\n{75}{100}%s\n"
                                                                            % (plain(a).replace("{", "("), plain(b), plain(b)))))
         fam = rand_value(rng, 3, ws=False)
-        out.append(("sami", lambda a=t1, b=t2, f=fam: SAMIReader().read(
+        nest = rng.choice(['<span style="color:#ff0000;font-family:%(f)s">%(b)s</span>',
+                           '<i>%(b)s <span style="color:#00ff00"><b>in</b>ner</span></i> tail',
+                           '<span style="font-size:12px"><span style="text-align:right">%(b)s</span></span>',
+                           '<u>%(b)s</u>'])
+        out.append(("sami", lambda a=t1, b=t2, f=fam, n=nest: SAMIReader().read(
             '<SAMI><HEAD><STYLE TYPE="text/css"><!-- P {font-family: Arial; color: #ffffff; margin-left: 5%%;} '
-            '.ENCC {lang: en-US;} .FRCC {lang: fr;} --></STYLE></HEAD><BODY><SYNC start=1000><P class=ENCC>%s<br>'
-            '<span style="color:#ff0000;font-family:%s">%s</span><P class=FRCC>%s</SYNC><SYNC start=3000><P class=ENCC>&nbsp;'
-            '</SYNC></BODY></SAMI>' % (esc(a), esc(f).replace('"', "&quot;").replace(";", ""), esc(b), esc(b)))))
-        idn = rng.choice(NCNAMES)
-        out.append(("dfxp", lambda a=t1, b=t2, f=fam, i=idn: DFXPReader().read(
+            '.ENCC {lang: en-US;} .FRCC {lang: fr;} .NARROW {margin-left: 10%%;} --></STYLE></HEAD><BODY><SYNC start=1000>'
+            '<P class=ENCC>%s<br>%s<P class=FRCC>%s</SYNC><SYNC start=3000><P class=ENCC>&nbsp;</SYNC>'
+            '<SYNC start=4000><P class=ENCC><span class=NARROW>%s</span></SYNC></BODY></SAMI>'
+            % (esc(a), n % {"f": qesc(f).replace(";", ""), "b": esc(b)}, esc(b), esc(a)))))
+        idn = rng.choice(NCNAMES + ["bottom", "r0"] if rng.random() < 0.15 else NCNAMES)
+        id2 = rng.choice([x for x in NCNAMES if x != idn])
+        body_p = rng.choice([
+            '%(a)s<br/><span tts:fontFamily="%(f)s" tts:fontStyle="italic">%(b)s</span>',
+            '<span tts:color="red">%(a)s <span tts:fontStyle="italic">nested <span style="%(i2)s">deep</span></span> out</span>',
+            '<span region="r8" tts:textAlign="right">%(a)s</span><br/><span style="%(i)s">%(b)s</span>',
+            '%(a)s<span tts:origin="5%% 5%%" tts:extent="20%% 10%%">%(b)s</span>'])
+        out.append(("dfxp", lambda a=t1, b=t2, f=fam, i=idn, i2=id2, bp=body_p: DFXPReader().read(
             '<?xml version="1.0" encoding="utf-8"?><tt xmlns="http://www.w3.org/ns/ttml" xmlns:tts="http://www.w3.org/ns/ttml#styling" '
-            'xml:lang="en"><head><styling><style xml:id="%s" tts:fontFamily="%s" tts:color="white"/></styling><layout>'
-            '<region xml:id="r9" tts:origin="10%% 20%%" tts:extent="60%% 20%%"/></layout></head><body><div xml:lang="en-US">'
-            '<p begin="00:00:01.000" end="00:00:02.000" style="%s" region="r9">%s<br/><span tts:fontFamily="%s" tts:fontStyle="italic">%s'
-            '</span></p></div><div xml:lang="fr"><p begin="00:00:01.000" end="00:00:02.000">%s</p></div></body></tt>'
-            % (i, esc(f).replace('"', "&quot;"), i, esc(a), esc(f).replace('"', "&quot;"), esc(b), esc(b)))))
+            'xml:lang="en"><head><styling><style xml:id="%s" tts:fontFamily="%s" tts:color="white"/>'
+            '<style xml:id="%s" style="%s" tts:fontSize="12px"/></styling><layout>'
+            '<region xml:id="r9" tts:origin="10%% 20%%" tts:extent="60%% 20%%"/>'
+            '<region xml:id="r8" tts:origin="20px 30px" tts:extent="300px 40px" tts:displayAlign="after"/></layout></head>'
+            '<body><div xml:lang="en-US"><p begin="00:00:01.000" end="00:00:02.000" style="%s" region="r9">%s</p>'
+            '<p begin="00:00:03.000" end="00:00:04.000" region="r8">%s</p></div><div xml:lang="fr">'
+            '<p begin="00:00:01.000" end="00:00:02.000">%s</p></div></body></tt>'
+            % (i, qesc(f), i2, i, i, bp % {"a": esc(a), "b": esc(b), "f": qesc(f), "i": i, "i2": i2}, esc(b), esc(b)))))
     basic = "abcdefghij klmnop"
     for _ in range(ctx.n(3, 30)):
         txt = "".join(rng.choice(basic) for _ in range(rng.randint(3, 25))).strip() or "x"
         scc = SCCWriter().write(CaptionSet({"en-US": CaptionList([Caption(5000000, 7000000, [CaptionNode.create_text(txt)]),
                                                                    Caption(9000000, 11000000, [CaptionNode.create_text(txt[::-1].strip() or "y")])])}))
         out.append(("scc", lambda s=scc: SCCReader().read(s)))
+    # SCC with mid-row italics, an indented PAC on row 2 and a roll-up block
+    out.append(("scc", lambda: SCCReader().read(
+        "Scenarist_SCC V1.0\n\n00:00:01:00\t94ae 94ae 9420 9420 1352 1352 c8e5 ec ec80 91ae 91ae e9f4 e1ec 9120 9120 f2ef 6d80 "
+        "942c 942c 942f 942f\n\n00:00:03:00\t942c 942c\n\n00:00:04:00\t9425 9425 94ad 94ad 9470 9470 f2ef ecec 2075 7080\n\n"
+        "00:00:06:00\t942c 942c\n\n")))
     return out
 
 
 def api_set(ctx):
     rng = ctx.rng
-    pool = layout_pool()
+    pool = layout_pool(absolute=rng.random() < 0.3)
     d = {}
-    styles = {}
-    for name in rng.sample(NCNAMES, rng.randint(0, 3)) + ([rng.choice(REGION_LIKE)] if rng.random() < 0.03 else []):
-        styles[name] = rand_style(rng, allow_empty=False) if rng.random() < 0.85 else {}
+    styles = rand_styles(rng, NCNAMES + (WILD_NAMES if rng.random() < 0.35 else []), extra_region_like=0.03, allow_empty=False)
+    names = list(styles) + ["missing"]
     for lang in rng.sample(LANGS, rng.choice([1, 1, 2, 3])):
         caps = []
         t, e = 0, 0
         for ci in range(rng.randint(1, 6)):
-            nodes = rand_nodes(rng)
+            nodes = [(n[0], dict(n[1], **{"class": rng.choice(names)})) if n[0] == "start" and rng.random() < 0.3 else n
+                     for n in rand_nodes(rng)]
             lays = [rng.choice(pool)() if rng.random() < 0.2 else None for _ in nodes]
             st = None
             if rng.random() < 0.5:
                 st = rand_style(rng, allow_empty=False)
                 if styles and rng.random() < 0.6:
-                    st["class"] = rng.choice(list(styles) + ["missing"])
+                    st["class"] = rng.choice(names)
             r = rng.random() if caps else 1.0
             if r < 0.25:
                 pass                                    # concurrent: same start AND end as the previous caption
@@ -650,6 +842,37 @@ def api_set(ctx):
     return CaptionSet(d, styles=styles, layout_info=rng.choice(pool)())
 
 
+def judge_document(acc, cs, wname, kw, force, out, inp, rp, src=None, label=""):
+    """strict parse + document clauses of ONE written document; appends a violation or counts it"""
+    langs = cs.get_languages()
+    if force and force in langs:
+        written = [force]
+    elif force and wname == "legacy":
+        written = [langs[-1]]
+    else:
+        written = langs
+    if wname == "main":
+        ps = [[(c.start, c.end) for c in cs.get_captions(l)] for l in written]
+    else:
+        ps = [runs(cs.get_captions(l)) for l in written]
+    root, bad = strict_parse(out, acc)
+    if bad:
+        bad["what"] = label + bad["what"]
+        acc.res["violations"].append(dict(bad, input=inp, document=out[:4000], **rp))
+        return False
+    v = check_document(root, out, written, ps)
+    if v and "info" in v:
+        acc.count("D_" + v["info"])
+        v = None
+    if v:
+        if wname == "legacy" and sum(len(x) for x in ps) == 0:
+            v["shape"] = "legacy-writer-no-caption-written"
+        v["what"] = label + v["what"]
+        acc.res["violations"].append(dict(tag_collision(v), input=inp, document=out[:4000], **rp))
+        return False
+    return True
+
+
 def stream_documents(ctx, acc):
     rng = ctx.rng
     sources = [("api", lambda: api_set(ctx)) for _ in range(ctx.n(150, 3000))] + reader_sets(ctx)
@@ -664,59 +887,53 @@ def stream_documents(ctx, acc):
         sources.append(("api-runs", shape(spans)))
     # the known shape: the legacy writer asked for a language without captions
     sources.append(("api-empty-language", lambda: CaptionSet({"fr": CaptionList([])})))
+    # head references: dangling / forward / self / to an empty style, with a class name that needs escaping
+    sources.append(("api-head-references", lambda: CaptionSet(
+        {"en": CaptionList([Caption(S, 2 * S, [CaptionNode.create_text("t")], style={"class": "a&b"})])},
+        styles={"a&b": {"class": "zz", "color": "white"}, "b": {"class": "c", "color": "red"}, "c": {"class": "c", "italics": True},
+                "d": {"class": "e", "font-size": "1c"}, "e": {}})))
     for src, mk in sources:
         cs = impl.call(mk)
         if not isinstance(cs, Ok):
             acc.count("D_source_rejected_by_reader_" + src)
             continue
         cs = cs.v
+        blob = pickled(cs)
         for wname in ("main", "single", "legacy"):
             kw = {}
             if wname != "legacy":
                 kw["write_inline_positioning"] = rng.random() < 0.5
                 if rng.random() < 0.4:
                     kw.update({"relativize": rng.random() < 0.5, "fit_to_screen": rng.random() < 0.5,
-                               "video_width": 640, "video_height": 360})
+                               "video_width": rng.choice([640, 1920]), "video_height": rng.choice([360, 1080])})
+            if wname == "single" and rng.random() < 0.3:
+                kw["default_positioning"] = Layout(origin=Point(Size(5, UnitEnum.PERCENT), Size(80, UnitEnum.PERCENT)))
             langs = cs.get_languages()
             force = rng.choice([None, None, "", rng.choice(langs), "zz"])
             w = WRITERS[wname](**kw)
             out = impl.call(lambda: w.write(cs, force=force) if force is not None else w.write(cs))
             acc.res["evaluations"] += 1
-            inp = {"source": src, "writer": wname, "options": kw, "force": force, "set": gens.describe_capset(cs),
-                   "styles": repr(cs.get_styles())[:500]}
+            inp = {"source": src, "writer": wname, "options": {k: repr(v) for k, v in kw.items()}, "force": force,
+                   "set": gens.describe_capset(cs), "styles": repr(cs.get_styles())[:500]}
+            rp = {"replay": "document", "pickle": blob, "writer": wname, "options_pickle": pickled(kw), "force": force}
             if not isinstance(out, Ok):
                 if out.code == 5:
                     acc.count("D_relativization_refused")
                     continue
-                acc.res["violations"].append({"kind": "write-raises", "what": "%s writer raised %s" % (wname, impl.ERR_NAMES.get(out.code)),
-                                              "input": inp, "replay": "none"})
+                if out.code == 103 and "Units must be relativized" in str(impl.last_exc):
+                    # fit_to_screen without relativize on an absolute-unit layout: a refusal with its own message (geometry)
+                    acc.count("D_fit_to_screen_refused_on_absolute_units")
+                    continue
+                acc.res["violations"].append(dict({"kind": "write-raises", "what": "%s writer raised %s" % (wname, impl.ERR_NAMES.get(out.code)),
+                                                   "input": inp}, **rp))
                 continue
-            if force and force in langs:
-                written = [force]
-            elif force and wname == "legacy":
-                written = [langs[-1]]
-            else:
-                written = langs
-            if wname == "main":
-                ps = [[(c.start, c.end) for c in cs.get_captions(l)] for l in written]
-            else:
-                ps = [runs(cs.get_captions(l)) for l in written]
-            try:
-                root = etree.fromstring(out.v.encode("utf-8"))
-            except etree.XMLSyntaxError as e:
-                acc.res["violations"].append(tag_collision({"kind": "ill-formed-xml", "what": "lxml (strict) rejects the %s writer's output: %s" % (wname, e),
-                                                            "input": inp, "document": out.v[:4000], "replay": "none"}, cs))
-                continue
-            v = check_document(root, out.v, written, ps)
-            if v:
-                if wname == "legacy" and sum(len(x) for x in ps) == 0:
-                    v["shape"] = "legacy-writer-no-caption-written"
-                tag_collision(v, cs)
-                acc.res["violations"].append(dict(v, input=inp, document=out.v[:4000], replay="none"))
-            else:
+            if judge_document(acc, cs, wname, kw, force, out.v, inp, rp):
                 acc.res["nontrivial"].add(("D", src, wname, out.v))
                 acc.count("D_ok_" + src)
+                acc.count("D_styles_with_class_in_head", sum(1 for _, st in cs.get_styles() if "class" in st))
+                acc.count("D_non_NCName_style_ids", sum(1 for sid, _ in cs.get_styles() if sid in WILD_NAMES))
                 if wname != "main":
+                    written = [force] if force and force in langs else ([langs[-1]] if force and wname == "legacy" else langs)
                     for l in written:
                         cl = cs.get_captions(l)
                         pairs = list(zip(cl, cl[1:]))
@@ -725,13 +942,17 @@ def stream_documents(ctx, acc):
                         acc.count("D_adjacent_same_end_different_start", sum(1 for a, b in pairs if a.start != b.start and a.end == b.end))
 
 
-VOCABS = [["p"], ["default"], ["s1"], [], ["p", "s1"], ["default", "k1"]]
+VOCABS = [["p"], ["default"], ["s1"], [], ["p", "s1"], ["default", "k1"], ["a&b", "p"], ["1x"]]
 
 
 def history_set(rng, vocab):
-    """a caption set whose style ids are exactly `vocab`; styled (known / unknown class) and unstyled captions"""
+    """a caption set whose style ids are exactly `vocab` (with class chains); styled (known / unknown class) and
+    unstyled captions"""
     pool = layout_pool()
     styles = {name: rand_style(rng, allow_empty=False) for name in vocab}
+    for name in vocab:
+        if rng.random() < 0.4:
+            styles[name]["class"] = rng.choice(vocab + ["zz", "p"])
     d = {}
     for lang in rng.sample(LANGS, rng.choice([1, 1, 2])):
         caps = []
@@ -763,30 +984,21 @@ def stream_histories(ctx, acc):
             if wname != "legacy" and rng.random() < 0.5:
                 kw["write_inline_positioning"] = True
             w = WRITERS[wname](**kw)
+            sets = []
             for step, vocab in enumerate(hist):
                 cs = history_set(rng, vocab)
-                langs = cs.get_languages()
+                sets.append(pickled(cs))
                 out = impl.call(lambda: w.write(cs))
                 acc.res["evaluations"] += 1
                 inp = {"history": hist, "step": step, "writer": wname, "options": kw, "set": gens.describe_capset(cs),
                        "styles": repr(cs.get_styles())[:400]}
+                rp = {"replay": "history", "pickles": list(sets), "writer": wname, "options_pickle": pickled(kw)}
                 if not isinstance(out, Ok):
-                    acc.res["violations"].append({"kind": "write-raises", "what": "%s writer raised at step %d of a history" % (wname, step),
-                                                  "input": inp, "replay": "none"})
+                    acc.res["violations"].append(dict({"kind": "write-raises", "what": "%s writer raised at step %d of a history" % (wname, step),
+                                                       "input": inp}, **rp))
                     break
-                ps = [[(c.start, c.end) for c in cs.get_captions(l)] for l in langs] if wname == "main" else \
-                    [runs(cs.get_captions(l)) for l in langs]
-                try:
-                    root = etree.fromstring(out.v.encode("utf-8"))
-                except etree.XMLSyntaxError as e:
-                    acc.res["violations"].append(tag_collision({"kind": "ill-formed-xml", "what": "step %d of a history on one %s writer: %s" % (step, wname, e),
-                                                                "input": inp, "document": out.v[:4000], "replay": "none"}, cs))
-                    continue
-                v = check_document(root, out.v, langs, ps)
-                if v:
-                    v["what"] = "step %d of a history %r on one %s writer object: %s" % (step, hist, wname, v["what"])
-                    acc.res["violations"].append(dict(tag_collision(v, cs), input=inp, document=out.v[:4000], replay="none"))
-                else:
+                label = "step %d of a history %r on one %s writer object: " % (step, hist, wname)
+                if judge_document(acc, cs, wname, kw, None, out.v, inp, rp, label=label):
                     acc.res["nontrivial"].add(("H", wname, out.v))
                     acc.count("H_documents_in_histories_ok")
                     acc.count("H_step_ge_1", int(step >= 1))
@@ -801,25 +1013,33 @@ def run(ctx):
     stream_histories(ctx, acc)
     res = acc.res
     res["samples"] = [x[1] for x in list(res["nontrivial"]) if x[0] == "S"][:5]
-    res["rule"] = ("S: attribute values containing one of & < > \" '; P: distinct (writer, node lists) whose payload equals the "
-                   "model and is accepted by both parsers; R: distinct (regions defined, references) structures; D: distinct "
-                   "documents that pass every document-level clause")
+    res["rule"] = ("S: attribute values containing one of & < > \" '; P: distinct (writer, node lists) whose payload is accepted by "
+                   "both parsers with the model's events; R: distinct (ids, references) structures equal to the model up to "
+                   "renaming; D / H: distinct documents that pass both strict parsers and every document-level clause")
     res["clauses"] = {
         "theorem": ["every attribute value, serialized by the output formatter or by quoteattr, parses back to itself under the "
-                    "strict attribute-value grammar (all strings of XML Chars)", "escaped text parses back to itself",
-                    "the payload of balanced node lists is accepted by the strict content machine (main and legacy writer)",
-                    "RegionCreator model: ids unique, every reference resolves, no unreferenced region survives cleanup"],
-        "correspondence_only": ["whole-document well-formedness, namespaces, div/p counts, begin/end (lxml, strict, no recovery)",
-                                "bs4 tree building and prettify indentation", "the spec parsers themselves are validated against lxml "
-                                "(accept/reject and decoded events) on writer outputs and on malformed literals",
-                                "xml:id values restricted to NCNames (lxml enforces the xml:id Recommendation)"]}
-    res["trusted_extra"] = ["lxml.etree (strict parser named by the property)"]
+                    "strict attribute-value grammar (all strings of XML Chars)",
+                    "escaped text parses back to itself and contains no ']]>'",
+                    "COMPOSED: from caption nodes (texts, style dictionaries, region id, inline positioning attributes) to a payload "
+                    "accepted by the strict content machine, for balanced style nodes, main and legacy writer",
+                    "RegionCreator model: ids unique, every reference resolves, no unreferenced region survives cleanup",
+                    "whole traversal of DFXPWriter (DfxpDoc.summarize) and of LegacyDFXPWriter (legacy_summarize): ok_refs = 0 on "
+                    "their domains (ids and references only: _partial)",
+                    "span / legacy attribute dictionaries have valid, pairwise distinct names"],
+        "correspondence_only": ["whole-document well-formedness, namespaces, head / body, div / p counts, begin / end (expat and lxml, "
+                                "strict, no recovery)", "bs4 tree building and prettify indentation",
+                                "the spec parsers themselves are validated against lxml (accept/reject and decoded events) on writer "
+                                "outputs, on malformed literals and on malformed content",
+                                "that cleanup_regions / get_positioning_info equal the model's filter / lookup (stream R)",
+                                "SinglePositioningDFXPWriter's transformation of the set (the model sees the set the RegionCreator "
+                                "sees); merge_concurrent_captions of the legacy writer (applied by the harness before abstraction)"]}
+    res["trusted_extra"] = ["lxml.etree and expat via xml.etree.ElementTree (the two strict parsers)"]
     return res
 
 
 def replay(ctx, rec):
-    if rec.get("replay") == "values":
-        acc = Acc()
+    kind = rec.get("replay")
+    if kind == "values":
         vals = rec["values"]
         caps = [Caption(i * 1000000, i * 1000000 + 500000,
                         [CaptionNode.create_style(True, {"font-family": v}), CaptionNode.create_text("t"),
@@ -827,22 +1047,36 @@ def replay(ctx, rec):
         out = impl.call(lambda: DFXPWriter().write(CaptionSet({"en": CaptionList(caps)})))
         if not isinstance(out, Ok):
             return True, repr(out)
-        try:
-            etree.fromstring(out.v.encode("utf-8"))
-            return False, "well-formed"
-        except etree.XMLSyntaxError as e:
-            return True, str(e)
-    if rec.get("replay") == "payload":
+        root, bad = strict_parse(out.v, Acc())
+        return (True, bad["what"]) if bad else (False, "well-formed")
+    if kind == "payload":
         inp = rec["input"]
         cs = CaptionSet({"en": CaptionList([Caption(i * 2000000, i * 2000000 + 1000000, to_caption_nodes([tuple(n) for n in nodes]))
                                              for i, nodes in enumerate(inp["captions"])])})
         out = impl.call(lambda: WRITERS[inp["writer"]]().write(cs))
         if not isinstance(out, Ok):
             return True, repr(out)
-        try:
-            etree.fromstring(out.v.encode("utf-8"))
-            return False, "well-formed"
-        except etree.XMLSyntaxError as e:
-            return True, str(e)
-    doc = rec.get("document")
-    return False, "no replay for this record kind (document kept in the record)"
+        root, bad = strict_parse(out.v, Acc())
+        if bad:
+            return True, bad["what"]
+        got = [x.strip() for x in re.findall(r"<p [^>]*>(.*?)</p>", out.v, re.S)]
+        evs = oracle_batch([(703, g) for g in got])
+        rej = [g for g, e in zip(got, evs) if e == []]
+        return (True, "the strict content parser rejects %r" % rej[0]) if rej else (False, "well-formed")
+    if kind in ("document", "history"):
+        unp = lambda b: pickle.loads(base64.b64decode(b))   # noqa: E731
+        kw = unp(rec["options_pickle"])[0] if rec.get("options_pickle") else dict(rec.get("options") or {})
+        w = WRITERS[rec["writer"]](**kw)
+        acc = Acc()
+        sets = [unp(b)[0] for b in (rec["pickles"] if kind == "history" else [rec["pickle"]])]
+        force = rec.get("force")
+        ok = True
+        for cs in sets:
+            out = impl.call(lambda: w.write(cs, force=force) if force is not None else w.write(cs))
+            if not isinstance(out, Ok):
+                return True, "write raised %r" % (out,)
+            acc.res["violations"] = []
+            ok = judge_document(acc, cs, rec["writer"], kw, force, out.v, {}, {})
+        v = acc.res["violations"]
+        return (not ok), (v[0]["what"] if v else "every document-level clause holds")[:600]
+    return False, "no replay for this record kind"
